@@ -90,6 +90,8 @@ def fresh_python(graph, x):
 def _as_int(a):
     import numpy
 
+    if a is None:
+        return None
     if isinstance(a, numpy.ndarray):
         return int(a[0])
     return int(a)
